@@ -5,6 +5,7 @@
 -/
 import GM.Proof.ShiftSimXLines
 import GM.Proof.ShiftSimXAux
+import GM.Proof.ShiftSimXSafe
 
 namespace GM.Blocks.Xs
 open GM GM.Text GM.Spec GM.Proof.Reader GM.Blocks
@@ -40,7 +41,29 @@ def XEnd (F : Frame) (b : Bytes) (sA sB : St) : Prop :=
     sA = { sA0 with r := sA0.r.advanceLine } ∧ sB = { sB0 with r := sB0.r.advanceLine }
 
 /-- at a line boundary: both runs have a line, or run A is at its end -/
-def TopRel (F : Frame) (b : Bytes) (sA sB : St) : Prop := (SR F b sA sB ∧ HasLine b sA) ∨ XEnd F b sA sB
+def TopRel (F : Frame) (b : Bytes) (sA sB : St) : Prop := (SR F b sA sB ∧ HL b sA) ∨ XEnd F b sA sB
+
+theorem advanceLine_head (r : Reader) (h : 0 ≤ r.pos.stop) : r.advanceLine.head = r.pos.stop := by
+  unfold Reader.advanceLine
+  simp only
+  rw [if_neg (by omega)]
+
+/-- behind an AdvanceLine the cursor stands at the start of a line: it is trigger-safe -/
+theorem ts_advanceLine {r : Reader} {c : RCur} (hc : RI b r.advanceLine c) (h0 : 0 ≤ r.pos.stop) (hlt : c.p < b.length) :
+    TSafe b c := by
+  left
+  have hh := hc.abs.head hlt
+  have hcp : (c.p : Int) = r.pos.stop := by
+    have := congrArg Segment.start hc.pos
+    simp only at this
+    rw [advanceLine_start _ h0] at this
+    omega
+  have : ((lineStart b c.p : Nat) : Int) = c.p := by
+    have e : (clearLo r.advanceLine).head = r.advanceLine.head := rfl
+    rw [e, advanceLine_head _ h0] at hh
+    omega
+  intro i h1 h2
+  omega
 
 /-- AdvanceLine out of the limbo relation -/
 theorem advanceLine_limbo_x {sA sB : St} (hqne : F.q ≠ []) (h : SRLim F b sA sB) :
@@ -58,10 +81,11 @@ theorem advanceLine_limbo_x {sA sB : St} (hqne : F.q ≠ []) (h : SRLim F b sA s
     omega
   rcases hd with ⟨he, hr⟩ | he
   · left
-    refine ⟨⟨⟨c, hc⟩, he, hl.n, hl.c⟩, c, hc, ?_⟩
-    rcases hr with hr | hr
-    · exact absurd hr hqne
-    · omega
+    have hlt : c.p < b.length := by
+      rcases hr with hr | hr
+      · exact absurd hr hqne
+      · omega
+    exact ⟨⟨⟨c, hc⟩, he, hl.n, hl.c⟩, ⟨c, hc, hlt⟩, c, hc, ts_advanceLine hc h0 hlt⟩
   · right
     exact ⟨sA, sB, hl, ⟨c, hc⟩, he, rfl, rfl⟩
 
